@@ -194,6 +194,10 @@ impl<'a> ReMatcher<'a> {
             #[cfg(regexml_verif)]
             crate::verif::tick(20);
             if let Some(fixed_position) = precondition.fixed_position {
+                if fixed_position > self.search.len() {
+                    // nothing can match beyond the end of the input
+                    return false;
+                }
                 let match_ = precondition
                     .operation
                     .matches_iter(self, fixed_position)
